@@ -126,8 +126,9 @@ def _work(task):
     return pi, out
 
 
-def explore(parts, workers=None):
-    """Runs all cases of all parts. Returns merged statistics."""
+def explore(parts, workers=None, records=None):
+    """Runs all cases of all parts. Returns merged statistics. If `records` is a
+    dict, records[part.name] receives the per-case (index, states, outcome-hash)."""
     global _PARTS
     _PARTS = parts
     workers = workers or N_WORKERS
@@ -154,6 +155,8 @@ def explore(parts, workers=None):
         part = parts[pi]
         st = stats[part.name]
         for ci, states, ntr, outcome, viols, info in out:
+            if records is not None:
+                records.setdefault(part.name, []).append((ci, states, outcome))
             st['states'].update(states)
             st['transitions'] += ntr
             st['outcomes'].add(outcome)
@@ -167,3 +170,53 @@ def explore(parts, workers=None):
                 for k, val in info.items():
                     st['info'][k] = st['info'].get(k, 0) + val
     return stats
+
+
+def bfs(name, worker, ops, depth, seeds=((),), workers=None, descr='',
+        enabled=None):
+    """Explicit-state breadth-first search over operation histories on the real
+    object. A state is the history reaching it (`worker(history)` builds a fresh
+    object, replays the history and returns the canonical observation as 'state').
+    Histories whose canonical state was seen before are not extended. Returns
+    (Part with all executed histories, stats) in the format of `explore`."""
+    seen = set()
+    frontier = [list(s) for s in seeds]
+    all_cases = []
+    merged = {'cases': 0, 'states': set(), 'transitions': 0, 'outcomes': set(),
+              'violations': [], 'info': {'levels': 0}}
+    levels = []
+    # level 0: the seeds themselves
+    level_cases = list(frontier)
+    for d in range(depth + 1):
+        if not level_cases:
+            break
+        part = Part(name, level_cases, worker, descr)
+        rec = {}
+        st = explore([part], workers, records=rec)[name]
+        next_frontier = []
+        for ci, states, outcome in sorted(rec.get(name, [])):
+            key = states[0]
+            if key not in seen and not key.startswith('EXC'):
+                seen.add(key)
+                next_frontier.append(level_cases[ci])
+        for v in st['violations']:
+            v['case_index'] += len(all_cases)
+        all_cases += level_cases
+        merged['cases'] += st['cases']
+        merged['states'] |= st['states']
+        merged['transitions'] += st['transitions']
+        merged['outcomes'] |= st['outcomes']
+        merged['violations'] += st['violations']
+        levels.append({'depth': d, 'histories': len(level_cases),
+                       'new_states': len(next_frontier)})
+        if d == depth:
+            break
+        level_cases = []
+        for h in next_frontier:
+            for op in ops:
+                if enabled is not None and not enabled(h, op):
+                    continue
+                level_cases.append(list(h) + [op])
+    merged['info'] = {'levels': levels, 'closed': not level_cases or all(
+        lv['new_states'] == 0 for lv in levels[-1:])}
+    return Part(name, all_cases, worker, descr), merged
